@@ -331,18 +331,10 @@ fn model(op: &str, inputs: &[H], subscribed: &[Option<u64>], out: &H) -> Option<
           }
         }
       }
-      // the trigger's own terminals: no effect required, completion allowed (DESIGN 4.7)
-      if let (Some(tt), Some((gs, Ev::Complete))) = (trig_terminal, terminal(out)) {
-        if gs >= tt {
-          let cut: H = exp.iter().filter(|(s, _)| *s < gs).cloned().collect();
-          let got_next: H = out.iter().filter(|(_, e)| !e.is_terminal()).cloned().collect();
-          let e: Vec<Ev> = cut.iter().filter(|(_, e)| !e.is_terminal()).map(|x| x.1.clone()).collect();
-          let g: Vec<Ev> = got_next.iter().map(|x| x.1.clone()).collect();
-          if e == g {
-            return None;
-          }
-        }
-      }
+      // the trigger's own terminals have no effect: the source is gated by the trigger's *items*
+      // (DESIGN 4.7; tightened after seeded change C03-m10 - a trigger that completes empty must
+      // not cut the stream)
+      let _ = trig_terminal;
       exact(op, &exp, out, inputs)
     }
     _ => None,
@@ -407,7 +399,15 @@ impl Family for C03 {
       }
     }
     let order = gen_order(rng, &sources, 0);
-    spec_to_json(p, &sources, &order, vec![])
+    // sometimes the subscriber steps a source again from inside its next callback: a further
+    // event reaches the operator while the previous output is still being delivered
+    let mut re = Vec::new();
+    if rng.below(5) == 0 {
+      for _ in 0..rng.range(1, 2) {
+        re.push(Json::obj(vec![("on", Json::str("next")), ("do", Json::Int(rng.below(n as u64) as i64))]));
+      }
+    }
+    spec_to_json(p, &sources, &order, vec![("reenter", Json::Arr(re))])
   }
   fn exec(&self, w: &Json, cfg: RunCfg) -> RunOut {
     let spec = match spec_from_json(w) {
